@@ -468,6 +468,17 @@ class PolyDomain:
         k = min(m, n)
         if k < n:
             raise Unsupported("qr of a wide matrix")
+        # qr is a function: syntactically identical inputs give the identical triangular factor
+        ckey = ("qr", M.shape, tuple(M.reshape(-1).tolist()))
+        if ckey in self.cache:
+            return self.cache[ckey].copy()
+        if all(not x.t for x in M.reshape(-1)):
+            # R^T R = 0 over the reals forces R = 0
+            Z = np.empty((n, n), dtype=object)
+            for idx in np.ndindex(n, n):
+                Z[idx] = Poly()
+            self.cache[ckey] = Z
+            return Z.copy()
         # columns that are identically zero -> corresponding row/col pattern is still generic; keep general
         R, name = self._fresh_mat("R", (n, n), "qr_r", upper=True)
         G = M.T.dot(M) if M.size else None
@@ -476,7 +487,8 @@ class PolyDomain:
             for j in range(i, n):
                 self.hyp(RtR[i, j] - G[i, j], f"{name}:RtR=MtM[{i},{j}]")
         self.notes.append(("qr", name, (m, n)))
-        return R
+        self.cache[ckey] = R
+        return R.copy()
 
     def tri_solve(self, A, B, *, left_side, lower, transpose_a, unit_diagonal):
         n = A.shape[0]
